@@ -19,7 +19,7 @@ import re
 
 import sympy
 
-from engine.algebra import Algebra, LocalDefs
+from engine.algebra import data_slice,  Algebra, LocalDefs
 from engine.cfg import CFG
 from engine.extract import Request
 from engine.loops import describe
@@ -400,6 +400,34 @@ def rule_h_per_plane_variant(ctx, zf):
     return n
 
 
+def rule_j_axial_match_tolerance_scales(ctx, f):
+    """SSRB(out, in) finds the output sinogram of an input sinogram by comparing their axial coordinates get_m(), single-precision
+    numbers that grow with the length of the scanner and are computed along different routes.  The comparison |out_m - in_m| < T can
+    find every partner on every scanner only if T scales with the geometry (the axial sampling): a bare literal is below the rounding
+    error once the scanner is long enough, and the counts of the unmatched sinograms are lost (F76: 1e-4 mm, scanners > 1 m)."""
+    RULE = "C15.j-axial-match-tolerance-scales-with-the-sampling"
+    defs = LocalDefs(f)
+    n = 0
+    for m in f.walk():
+        if not (m.k == "BinaryOperator" and m.op in ("<", "<=", ">", ">=")):
+            continue
+        l, r = m.c[0].strip(), m.c[1].strip()
+        absl = l if (l.is_call() and (l.callee or "").split("::")[-1] in ("fabs", "abs")) else (r if (r.is_call() and (r.callee or "").split("::")[-1] in ("fabs", "abs")) else None)
+        if absl is None:
+            continue
+        other = r if absl is l else l
+        sl = data_slice(f, [absl], defs)
+        gm = [x for x in sl if x.is_call() and (x.callee or "").split("::")[-1] == "get_m"]
+        if len(gm) < 2:
+            continue
+        so = data_slice(f, [other], defs)
+        scaled = [x for x in so if x.k == "CXXMemberCallExpr" and re.search(r"get_(sampling_in_m|axial_sampling|ring_spacing|sampling_in_t)$", x.callee or "")]
+        ok = bool(scaled)
+        ctx.ob(RULE, f.qn, "match@%d" % n, ok, m.where(), "tolerance `%s` depends on %s" % (key(other, True)[:60], (scaled[0].callee or "").split("::")[-1]) if ok else "axial coordinates are matched with the tolerance `%s`, which does not depend on the geometry: single-precision get_m() values computed along two routes differ by more than a fixed small number on a long enough scanner, the input sinogram then finds no output sinogram and its counts are lost" % key(other, True)[:60])
+        n += 1
+    return n
+
+
 def run(ctx):
     ctx.explanation = (
         "Decides structural clauses only. SSRB(out, in, do_norm): (a) each output sinogram starts as a fresh empty sinogram, accumulates "
@@ -421,6 +449,8 @@ def run(ctx):
         ctx.fail_broken("anchor SSRB(ProjData&, const ProjData&, bool) not found")
     else:
         rule_ssrb(ctx, ss[0])
+        rule_j_axial_match_tolerance_scales(ctx, ss[0])
+        ctx.require_count("C15.j-axial-match-tolerance-scales-with-the-sampling", 1)
     sg = [f for f in us[0].functions if f.short == "SSRB" and f.body is not None and f.cfg_raw and f.params and "ProjDataInfo &" in f.params[0]["t"] and "const" in f.params[0]["t"] and "ProjDataInfo" in (f.ret if hasattr(f, "ret") else "ProjDataInfo")]
     sg = [f for f in sg if len(f.params) >= 5]
     if not sg:
@@ -428,6 +458,23 @@ def run(ctx):
     else:
         rule_ssrb_geometry(ctx, sg[0])
         ctx.require_count("C15.g-ssrb-geometry-covers-combined-segments", 3)
+        # i: SSRB(const ProjDataInfo&) makes the output geometry by clone() and setters (set_num_views, ...).  The clone carries the
+        # lazily built detector tables of the input and their flags; the counts land where SSRB(out, in) computes (view / factor), so
+        # the output geometry assigns pairs to the same bins only if those tables store nothing that the setters change - the clause
+        # C01.e, evaluated here for the geometry classes because the rebinning property depends on it (seed C15-4)
+        import rules.C01 as C01
+
+        clones = [c for c in sg[0].calls() if (c.callee or "").split("::")[-1] in ("clone", "create_shared_clone")]
+        setters = sorted({(c.callee or "").split("::")[-1] for c in sg[0].calls() if (c.callee or "").split("::")[-1].startswith("set_")})
+        if not clones or not setters:
+            ctx.unrec(sg[0].qn, "C15.i: the output geometry is not made by clone() and setters any more (%d clone calls, setters %s)" % (len(clones), setters))
+        else:
+            creqs = C01.requests()
+            ctx.ex.prefetch(creqs)
+            cus = [ctx.ex.get(r) for r in creqs]
+            if all(x is not None for x in cus):
+                C01.rule_e_tables_from_fixed_inputs(ctx, C01.uniq([f for u in cus for f in u.functions]), rule="C15.i-cloned-geometry-tables-not-stale")
+                ctx.require_count("C15.i-cloned-geometry-tables-not-stale", 2)
     seen, zf = set(), []
     for f in us[1].functions:
         if (f.file, f.line) not in seen:
